@@ -159,3 +159,7 @@ package mbapp
 //@   ensures partIndex < c.partCount && ret == nil && old(bitof(c.bitMap.buf[partIndex/8], partIndex%8)) == 0 ==> \
 //@           bitof(c.bitMap.buf[partIndex/8], partIndex%8) == 1
 //@   ensures ret != nil ==> forall k :: 0 <= k && k < c.bitMap.n ==> bitof(c.bitMap.buf[k/8], k%8) == old(bitof(c.bitMap.buf[k/8], k%8))
+//@   before call copy:
+//@     assert [lastplaced] partIndex == c.partCount - 1 ==> arr(arg0) == arr(c.buf) && off(arg0) == off(c.buf) + len(c.buf) - len(data)
+//@     assert [placed] partIndex < c.partCount - 1 ==> arr(arg0) == arr(c.buf) && off(arg0) == off(c.buf) + len(data) * partIndex
+//@     assert [source] arg1 == data
